@@ -46,7 +46,8 @@ def gen_kwargs(rng, small_years=True):
     freq = rng.randint(0, 6)
     y = rng.choice([1, 99, 999, 1000, 1997, 2000, 2024, 9990] if small_years else [1997, 2000, 2024])
     ds = datetime.datetime(y, rng.randint(1, 12), rng.randint(1, 28), rng.randint(0, 23), rng.randint(0, 59), rng.randint(0, 59))
-    kw = dict(interval=rng.choice([1, 1, 2, 3, 10]))
+    # interval 0 and negative intervals are accepted by the constructor and printed by __str__ (INTERVAL is omitted only for 1)
+    kw = dict(interval=rng.choice([1, 1, 1, 2, 2, 3, 3, 10, 10, 0, -2]))
     if rng.random() < .5:
         kw["wkst"] = rng.choice([0, 1, 6, R.MO, R.SU, R.TU])
     some = lambda pool, k=3: rng.sample(pool, rng.randint(1, k))
@@ -244,16 +245,18 @@ def correspondence(ctx):
         except (ValueError, Timeout):
             ctx.count("ctor_rejected"); continue
         s = str(r)
-        rules.append((r, s))
+        rules.append((r, s, (freq, ds, kw)))
         reqs.append(str_request(r)); exp.append("ok " + hexs(s))
     got = ctx.driver(reqs)
-    for q, e, g in zip(reqs, exp, got):
+    ctx.c13_str_mismatch_rules = []
+    for q, e, g, rl in zip(reqs, exp, got, rules):
         if e != g:
+            ctx.c13_str_mismatch_rules.append({"rule": rl[2]})
             ctx.mismatch("rrs.str", q, bytes.fromhex(e[3:]).decode() if e[3:] != "." else "", bytes.fromhex(g[3:]).decode() if g.startswith("ok ") and g[3:] != "." else g)
     ctx.traces += len(reqs)
     # parse side: str() outputs, spellings, folded, sets, malformed, mutated
     cases = []
-    for r, s in rules:
+    for r, s, _ in rules:
         cases.append((s, {}))
         v = spell(rng, s, 2)
         cases.append((v, {}))
@@ -307,14 +310,19 @@ def same_occurrences(a, b, n=12):
 def oracle(ctx):
     from dateutil import rrule as R, tz
     rng = ctx.subrng("oracle")
-    n = ctx.budget(500, 25000)
+    n = ctx.budget(500, 15000)
     shown = 0
+    # rules on which the model and str() disagreed come first (failing-input search after a correspondence mismatch)
+    seeded = [m["rule"] for m in getattr(ctx, "c13_str_mismatch_rules", [])][:200]
     for i in range(n):
-        freq, ds, kw = gen_kwargs(rng)
+        if ctx.escalated and len(ctx.violations) >= 5:
+            ctx.count("search_stopped_after_failing_inputs_found"); break
+        freq, ds, kw = seeded.pop() if seeded else gen_kwargs(rng)
         try:
             r = build(freq, ds, kw)
             base = head(iter(r))
-        except (ValueError, Timeout):
+        except (ValueError, Timeout, ZeroDivisionError, OverflowError):
+            # interval <= 0 is accepted by the constructor but may fail or loop when iterated (C01's domain): nothing to compare
             ctx.count("skipped_ctor_or_slow"); continue
         s = str(r)
         key = (s,)
@@ -347,6 +355,9 @@ def oracle(ctx):
             elif mode == 2:
                 # start passed as dtstart= instead of inline
                 v = "\n".join(l for l in v.split("\n") if not l.upper().startswith("DTSTART")); opts["dtstart"] = ds
+            elif mode == 3 and "\n" in v:
+                # lines separated by arbitrary whitespace (s.split()), blank lines, surrounding blanks
+                v = rng.choice(["", " ", "\n"]) + v.replace("\n", rng.choice([" ", "\n\n", " \n", "\t", "\r\n"])) + rng.choice(["", " ", "\n"])
             ctx.case((v, tuple(sorted(opts))), nontrivial=True); ctx.count("spelling_mode_%d" % mode)
             try:
                 with warnings.catch_warnings():
@@ -386,6 +397,8 @@ def oracle(ctx):
                 ctx.count("skipped_ctor_or_slow")
     # (4) multi-line inputs build the corresponding set; forceset; compatible
     for i in range(ctx.budget(120, 3000)):
+        if ctx.escalated and len(ctx.violations) >= 5:
+            break
         ds = datetime.datetime(rng.choice([1997, 2000, 2024]), rng.randint(1, 12), rng.randint(1, 28), 9, 0, 0)
         stamp = ds.strftime("%Y%m%dT%H%M%S")
         r1 = "FREQ=DAILY;COUNT=%d" % rng.randint(1, 6)
